@@ -439,8 +439,14 @@ class Program:
                     else:
                         res = (None, body.strip())
                 else:
-                    # derive: the span is the derive(...) token, the trait name itself
-                    res = (text.strip(), '?derive')
+                    # derive: the span is the trait name inside `#[derive(..)]`; the self type is the item that follows
+                    st = '?derive'
+                    for ln in lines[l2 - 1:l2 + 40]:
+                        mi = re.search(r'\b(?:struct|enum|union)\s+(\w+)', re.sub(r'//.*', '', ln))
+                        if mi and not re.match(r'\s*#', ln):
+                            st = mi.group(1)
+                            break
+                    res = (text.strip(), st)
         self._impl_cache[span] = res
         return res
 
